@@ -1,6 +1,6 @@
 \* two indexes, one attempt, a Pod create refused for good, kill two ticks ahead: admission error next to a live task with a kill deadline ahead
 CONSTANTS N = 2 MaxAtt = 1 Delay = 0 Strategy = "AllSuccessful" PT = 0 FD = 2 TTL = 4 Forbid = FALSE Foreign = FALSE MaxTime = 3 MaxEvq = 2 MaxFaults = 1 MaxCrash = 0 Fresh = TRUE KillDelays = {2} KillEdits = {} UserDeletes = FALSE ExtDeletes = FALSE NodeDowns = FALSE
- Rejects = FALSE Holds = FALSE Invalids = TRUE D = 48 K = 25 Goals = {8}
+ Rejects = FALSE Holds = FALSE Invalids = TRUE WatchBreaks = FALSE D = 48 K = 25 Goals = {8}
 SPECIFICATION GSpec2
 VIEW GView
 INVARIANTS Goal8 Stop
